@@ -671,6 +671,7 @@ func run(r *core.R) {
 	r.FaultDecl("duplicate_delivery", "revert_to_previous", "delete_unknown", "readd_after_delete", "selector_changed_in_place")
 	r.ProbeDecl("dangling_parent_ref", "own_label_shadows_parent", "parents_disagree_first_wins", "match_only_via_parent",
 		"parent_label_prevents_match", "parent_arrives_after_child", "duplicate_parent_ref", "teardown_done")
+	resetLabelCache(r)
 	src := r.Src
 	thorough := r.Tier == "thorough"
 	w := &world{r: r}
